@@ -9,11 +9,11 @@ EXTENDS Naturals, Sequences, FiniteSets, TLC, Json, IOUtils
 Rec == ndJsonDeserialize(IOEnv.TRACE)
 N == Len(Rec)
 
-VARIABLES gen, store, via, blobs, net, issued, accepted, last, l
+VARIABLES gen, store, via, blobs, net, issued, accepted, clock, last, l
 
-D == INSTANCE Deploy WITH Slots <- 1..3, Evil <- 3, ClaimSet <- 1..2, NoteSet <- 0..1, MaxNet <- 8, MaxBlobs <- 8, Weaken <- "none"
+D == INSTANCE Deploy WITH Slots <- 1..3, Evil <- 3, ClaimSet <- 1..2, NoteSet <- 0..1, MaxNet <- 8, MaxBlobs <- 8, MaxClock <- 3, Weaken <- "none"
 
-dvars == <<gen, store, via, blobs, net, issued, accepted, last>>
+dvars == <<gen, store, via, blobs, net, issued, accepted, clock, last>>
 E == Rec[l]
 IsEvent(name) == l <= N /\ E.ev = name /\ l' = l + 1
 SetOf(seq) == {seq[k] : k \in 1..Len(seq)}
@@ -22,7 +22,7 @@ TInit == D!Init /\ l = 1
 
 Fresh ==
   /\ gen' = [s \in 1..3 |-> "none"]
-  /\ store' = {} /\ via' = {} /\ blobs' = << >> /\ net' = << >> /\ issued' = {} /\ accepted' = {}
+  /\ store' = {} /\ via' = {} /\ blobs' = << >> /\ net' = << >> /\ issued' = {} /\ accepted' = {} /\ clock' = 0
   /\ last' = D!Done(TRUE)
 
 TReset == IsEvent("Reset") /\ Fresh
